@@ -72,6 +72,9 @@ pub enum Atom {
     NotCtxK,
     ResourceInLit(u8),
     IfCtxKThenFlagElseErr,
+    /// `unknown("x")` (the library is built with partial evaluation): never a value, so the policy
+    /// cannot be evaluated; concrete authorization reports it among the errors and skips it
+    Unknown,
 }
 
 #[derive(Clone, Debug, Serialize, Deserialize, PartialEq)]
@@ -144,6 +147,7 @@ fn atom_text(a: &Atom) -> String {
         Atom::NotCtxK => "!context.k".into(),
         Atom::ResourceInLit(e) => format!("resource in {}", uid_txt(*e)),
         Atom::IfCtxKThenFlagElseErr => "if context.k then principal.flag else 1 + true".into(),
+        Atom::Unknown => "unknown(\"x\")".into(),
     }
 }
 
@@ -256,7 +260,7 @@ impl Model {
                 let cn = q.n.ok_or(())?;
                 Ok(rn > cn)
             }
-            Atom::TypeError => Err(()),
+            Atom::TypeError | Atom::Unknown => Err(()),
             Atom::OverflowIfCtxNPos => {
                 let cn = q.n.ok_or(())?;
                 let s = i64::MAX.checked_add(cn).ok_or(())?;
@@ -505,7 +509,18 @@ fn replica_check(m: &Model, reqs: &[Req], perm: u64, route: u8, step: usize, obs
             Err(e) => return Some(Violation::new("replica_build", "route3 json round trip", step, "the policy set survives to_json/from_json", e)),
         };
     }
-    if route == 4 {
+    // (protobuf cannot carry `unknown(..)`: C20's open finding; such sets take the JSON route twice)
+    let has_unknown = m.items.values().any(|it| match it {
+        Item::Static(p) | Item::Template(p) => p.clauses.iter().any(|(_, a)| *a == Atom::Unknown),
+        Item::Link(..) => false,
+    });
+    if route == 4 && has_unknown {
+        ps = match ps.clone().to_json().map_err(|e| e.to_string()).and_then(|j| PolicySet::from_json_value(j).map_err(|e| e.to_string())) {
+            Ok(p) => p,
+            Err(e) => return Some(Violation::new("replica_build", "route3 json round trip", step, "the policy set survives to_json/from_json", e)),
+        };
+    }
+    if route == 4 && !has_unknown {
         ps = match ps.encode().map_err(|e| e.to_string()).and_then(|b| PolicySet::decode(&b[..]).map_err(|e| e.to_string())) {
             Ok(p) => p,
             Err(e) => return Some(Violation::new("replica_build", "route4 protobuf round trip", step, "the policy set survives encode/decode", e)),
@@ -809,6 +824,7 @@ fn gen_atom(rng: &mut Rng) -> Atom {
         14 => Atom::NotCtxK,
         15 => Atom::ResourceInLit(rng.below(N_NONACT as usize) as u8),
         16 => Atom::IfCtxKThenFlagElseErr,
+        17 if rng.pct(60) => Atom::Unknown,
         _ => Atom::True,
     }
 }
